@@ -95,6 +95,7 @@ static int runAlloc(const char *opsfile)
 //   clk2[-]   second clock (registers of ent1 run on it) ; "-" = not present
 //   ipc=<name>,<name>,...   interface package natural constants (only when given)
 //   shape=<full|mem|tiny|late>   full: everything; mem: clock+memory only; tiny: two pins;
+//                           hier: entity/area nesting shapes (hv=0..4);
 //                           clksig: clocks/resets used as logic signals (ck= use= sub= gt=);
 //                           clkrst: logic-driven clock / reset lines (cl= rl= dv= sub=);
 //                           late: forward-declared signals read before assigned (lv=0..9, nm=0|1)
@@ -404,6 +405,75 @@ static void buildClkSig(const Case &c)
 	pinOut(r).setName(c.get("po1", "o_reg"));
 }
 
+
+// "hier" family: hierarchy shapes that decide the design-unit order of the export
+//   hv=0  top -> AREA blk -> ENTITY inner -> ENTITY leaf
+//   hv=1  top -> AREA a1 -> AREA a2 -> ENTITY inner          (area in area in entity)
+//   hv=2  top -> AREA b1 -> ENTITY leaf ; top -> AREA b2 -> ENTITY leaf (same name, two blocks) ; top -> ENTITY leaf
+//   hv=3  top -> ENTITY mid -> AREA blk -> ENTITY inner -> AREA blk2 -> ENTITY leaf   (blocks on two levels)
+//   hv=4  plain top -> ENTITY mid -> ENTITY leaf               (no area: reference shape)
+static void buildHier(const Case &c)
+{
+	int hv = atoi(c.get("hv", "0").c_str());
+	Clock clock({.absoluteFrequency = 100'000'000, .name = c.get("clk", "clk"), .resetName = c.get("rst", "reset")});
+	ClockScope cs(clock);
+	UInt a = pinIn(4_b).setName(c.get("pi0", "a"));
+	UInt b = pinIn(4_b).setName(c.get("pi1", "b"));
+	std::string eInner = c.get("ent0", "inner"), eLeaf = c.get("ent1", "leaf"), eMid = c.get("ent2", "mid");
+	std::string bA = c.get("blk0", "blk"), bB = c.get("blk1", "blk2");
+	auto leafLogic = [&](UInt v, unsigned k) { UInt r = reg(v + k, 0); r.setName(c.get("sg0", "leaf_sig")); return r; };
+	UInt res;
+	switch (hv) {
+	case 0: {
+		GroupScope g(GroupScope::GroupType::AREA, bA);
+		Area inner(eInner, true);
+		UInt t = a ^ b; t.setName(c.get("sg1", "t"));
+		{ Area leaf(eLeaf, true); t = leafLogic(t, 1); }
+		res = t + 1;
+	} break;
+	case 1: {
+		GroupScope g1(GroupScope::GroupType::AREA, bA);
+		UInt u = a & b; u.setName(c.get("sg1", "t"));
+		{
+			GroupScope g2(GroupScope::GroupType::AREA, bB);
+			{ Area inner(eInner, true); u = leafLogic(u, 2); }
+			u = u + 1;
+		}
+		res = u ^ a;
+	} break;
+	case 2: {
+		UInt p, q, r;
+		{ GroupScope g(GroupScope::GroupType::AREA, bA); { Area l(eLeaf, true); p = leafLogic(a, 1); } p = p + 1; }
+		{ GroupScope g(GroupScope::GroupType::AREA, bB); { Area l(eLeaf, true); q = leafLogic(b, 2); } q = q ^ a; }
+		{ Area l(eLeaf, true); r = leafLogic(a | b, 3); }
+		res = p + q + r;
+	} break;
+	case 3: {
+		Area mid(eMid, true);
+		UInt m = a + b; m.setName(c.get("sg1", "t"));
+		{
+			GroupScope g(GroupScope::GroupType::AREA, bA);
+			Area inner(eInner, true);
+			UInt t = m ^ b;
+			{
+				GroupScope g2(GroupScope::GroupType::AREA, bB);
+				{ Area leaf(eLeaf, true); t = leafLogic(t, 1); }
+				t = t + 3;
+			}
+			m = t & a;
+		}
+		res = m;
+	} break;
+	default: {
+		Area mid(eMid, true);
+		UInt m = a + b;
+		{ Area leaf(eLeaf, true); m = leafLogic(m, 1); }
+		res = m ^ a;
+	} break;
+	}
+	pinOut(res).setName(c.get("po0", "res"));
+}
+
 static void buildTiny(const Case &c)
 {
 	UInt a = pinIn(4_b).setName(c.get("pi0", "pi0"));
@@ -442,6 +512,7 @@ static int runDesign(const char *casefile, const char *outroot)
 			else if (shape == "late") buildLate(c);
 			else if (shape == "clkrst") buildClkRst(c);
 			else if (shape == "clksig") buildClkSig(c);
+			else if (shape == "hier") buildHier(c);
 			else buildTiny(c);
 			design.postprocess();
 
@@ -450,6 +521,7 @@ static int runDesign(const char *casefile, const char *outroot)
 			else v = std::make_unique<vhdl::VHDLExport>(out);
 			if (c.mode == "E") v->outputMode(vhdl::OutputMode::FILE_PER_ENTITY);
 			if (c.mode == "P") v->outputMode(vhdl::OutputMode::FILE_PER_PARTITION);
+			v->writeProjectFile("project.txt");   // the generated compile-order list is part of what is checked
 			std::string ipc = c.get("ipc", "");
 			if (!ipc.empty()) {
 				size_t pos = 0, k = 0;
